@@ -293,6 +293,15 @@ impl World {
                 if !was_ready {
                     self.violation("c01-stub-secret", format!("{} on a channel stub returned the secret of commitment {}", via, k));
                 }
+                // F13 (fixed by 0078200): whatever number was asked for, a secret that leaves the signer
+                // must be that of a commitment at least two below the counter at that moment
+                let next = self.estate().map(|e| e.next_holder_commit_num).unwrap_or(0);
+                if k.checked_add(2).map_or(true, |x| x > next) {
+                    self.violation(
+                        "c01-secret-guard-overflow",
+                        format!("{} returned the secret of commitment {} while next_holder_commit_num is {} (release guard passed for a number >= next-1)", via, k, next),
+                    );
+                }
                 if k == u64::MAX {
                     self.violation("c01-seed-disclosed", format!("{} returned the commitment seed", via));
                 } else if !self.mon.accepted_valid.contains(&k.wrapping_add(1)) {
@@ -746,19 +755,6 @@ impl World {
             Ok(r) => r,
             Err(_) => {
                 self.dead = true;
-                // F13: the secret-release guard `commitment_number + 2 > next` (and `n + 1` on the way to
-                // it) overflows for request-supplied numbers near u64::MAX.  Debug build: this panic.
-                // Release build (no overflow checks): the sum wraps, the guard passes and a secret — for
-                // u64::MAX the commitment seed itself — is returned (notes/recon/f13_release_replay.rs).
-                if matches!(kind, "getsecret" | "getsecretnone" | "revoke" | "hrevoke") {
-                    let n = num(if kind == "hrevoke" { 2 } else { 1 });
-                    if n >= u64::MAX - 2 {
-                        self.violation(
-                            "c01-secret-guard-overflow",
-                            format!("{} {}: arithmetic overflow in the secret-release guard (panic here; wraps and discloses in a release build)", kind, n),
-                        );
-                    }
-                }
                 Err("panic".into())
             }
         };
